@@ -16,6 +16,12 @@ DOMAIN = {'quick': 'seeded random B-spline and NURBS functions with sdim 1-3, sc
 RULE = 'case = (check, seed/parameters); distinct by input'
 
 
+
+def _ac(a, b, **kw):
+    """np.allclose that does not broadcast: a result of another shape than the reference is a difference"""
+    a, b = np.asarray(a), np.asarray(b)
+    return a.shape == b.shape and np.allclose(a, b, **kw)
+
 def _kvs(rng, sdim):
     from pyiga import bspline
     out = []
@@ -61,7 +67,7 @@ def chk_routes(c):
     for I in idxs[:12]:
         x = tuple(grid[d][I[d]] for d in range(sdim))
         v = f(*reversed(x))
-        assert np.allclose(v, V[I], rtol=1e-11, atol=1e-11), 'single-point evaluation differs from grid evaluation at %r' % (x,)
+        assert _ac(v, V[I], rtol=1e-11, atol=1e-11), 'single-point evaluation differs from grid evaluation at %r' % (x,)
     # the call route with array arguments is the tensor grid over them; exactly the axes of SCALAR arguments are dropped (an array of
     # length 1 is still an array: its axis stays)
     for trial in range(4):
@@ -79,17 +85,17 @@ def chk_routes(c):
         got = np.asarray(f(*reversed(args)))
         assert got.shape == want.shape, 'f(*x) with (zyx) arguments %r has shape %r, the grid over them has %r' % (
             [['scalar', 'array of length 1', 'array of length 3'][k] for k in kindsel], got.shape, want.shape)
-        assert np.allclose(got, want, rtol=1e-11, atol=1e-11), 'f(*x) with array arguments differs from the grid evaluation'
+        assert _ac(got, want, rtol=1e-11, atol=1e-11), 'f(*x) with array arguments differs from the grid evaluation'
     # scattered points (xyz order)
     P = np.array([[grid[d][I[d]] for d in range(sdim)] for I in idxs[:15]])      # rows: points, columns: knot-vector order
     pts = tuple(P[:, sdim - 1 - k] for k in range(sdim))                          # xyz order
     Vs = f.pointwise_eval(pts)
     for q, I in enumerate(idxs[:15]):
-        assert np.allclose(Vs[q], V[I], rtol=1e-11, atol=1e-11), 'scattered evaluation differs from grid evaluation (point %r)' % (P[q],)
+        assert _ac(Vs[q], V[I], rtol=1e-11, atol=1e-11), 'scattered evaluation differs from grid evaluation (point %r)' % (P[q],)
     if hasattr(f, 'pointwise_jacobian') and len(c['tail']) <= 1:
         Js = f.pointwise_jacobian(pts)
         for q, I in enumerate(idxs[:15]):
-            assert np.allclose(np.squeeze(Js[q]), np.squeeze(J[I]), rtol=1e-10, atol=1e-10), 'scattered Jacobian differs from grid Jacobian'
+            assert _ac(np.squeeze(Js[q]), np.squeeze(J[I]), rtol=1e-10, atol=1e-10), 'scattered Jacobian differs from grid Jacobian'
     # the same points as multi-dimensional coordinate arrays with other memory layouts (Fortran order, transposed views): positions are kept
     m, (r_, c_) = 6, (2, 3)
     for layout in ('F', 'T'):
@@ -100,23 +106,23 @@ def chk_routes(c):
         V2 = f.pointwise_eval(pts2)
         assert V2.shape[:2] == (r_, c_), 'scattered evaluation of 2x3 coordinate arrays has shape %r' % (V2.shape,)
         for q in range(m):
-            assert np.allclose(V2[q // c_, q % c_], V[idxs[q]], rtol=1e-11, atol=1e-11), \
+            assert _ac(V2[q // c_, q % c_], V[idxs[q]], rtol=1e-11, atol=1e-11), \
                 'scattered evaluation on %s-layout coordinate arrays returns the value of another point at position %r' % (layout, (q // c_, q % c_))
         if hasattr(f, 'pointwise_jacobian') and len(c['tail']) <= 1:
             J2 = f.pointwise_jacobian(pts2)
             for q in range(m):
-                assert np.allclose(np.squeeze(J2[q // c_, q % c_]), np.squeeze(J[idxs[q]]), rtol=1e-10, atol=1e-10), \
+                assert _ac(np.squeeze(J2[q // c_, q % c_]), np.squeeze(J[idxs[q]]), rtol=1e-10, atol=1e-10), \
                     'scattered Jacobian on %s-layout coordinate arrays is permuted' % layout
     # integer-valued coefficient arrays of an integer dtype describe the same function as their float copy, also in the derivatives
     if c['kind'] == 'bspline' and hasattr(f, 'coeffs'):
         from pyiga import bspline as _b
         Ci = np.round(3 * np.asarray(f.coeffs)).astype(int)
         fi, ff = _b.BSplineFunc(kvs, Ci), _b.BSplineFunc(kvs, Ci.astype(float))
-        assert np.allclose(fi.grid_eval(grid), ff.grid_eval(grid), atol=1e-12), 'values with integer coefficients'
-        assert np.allclose(fi.grid_jacobian(grid), ff.grid_jacobian(grid), atol=1e-10), 'Jacobian with integer coefficients'
+        assert _ac(fi.grid_eval(grid), ff.grid_eval(grid), atol=1e-12), 'values with integer coefficients'
+        assert _ac(fi.grid_jacobian(grid), ff.grid_jacobian(grid), atol=1e-10), 'Jacobian with integer coefficients'
         if len(c['tail']) <= 1:
             Hi, Hf = fi.grid_hessian(grid), ff.grid_hessian(grid)
-            assert np.allclose(Hi, Hf, atol=1e-9 * max(1.0, np.max(np.abs(Hf)))), \
+            assert _ac(Hi, Hf, atol=1e-9 * max(1.0, np.max(np.abs(Hf)))), \
                 'Hessian with integer coefficients differs from the Hessian of the float copy by %g (truncated to the coefficient dtype?)' % np.max(np.abs(Hi - Hf))
     # Jacobian = derivative of the evaluated map (central differences inside the domain)
     h = 1e-6
@@ -131,7 +137,7 @@ def chk_routes(c):
             e = np.zeros(sdim)
             e[sdim - 1 - k] = h
             fd = (f(*reversed(x + e)) - f(*reversed(x - e))) / (2 * h)
-            assert np.allclose(np.asarray(J0)[..., k], fd, rtol=1e-5, atol=1e-5), 'Jacobian column %d is not the derivative along coordinate %d' % (k, k)
+            assert _ac(np.asarray(J0)[..., k], fd, rtol=1e-5, atol=1e-5), 'Jacobian column %d is not the derivative along coordinate %d' % (k, k)
     if len(c['tail']) <= 1 and sdim >= 1:
         H = f.grid_hessian(grid)
         n_h = sdim * (sdim + 1) // 2
@@ -148,7 +154,7 @@ def chk_routes(c):
                 e = np.zeros(sdim)
                 e[sdim - 1 - b] = h
                 fd = (jac(x + e)[..., a] - jac(x - e)[..., a]) / (2 * h)
-                assert np.allclose(np.asarray(H0)[..., s_], fd, rtol=2e-4, atol=2e-4), 'Hessian slot %d is not d^2/dx%d dx%d' % (s_, a, b)
+                assert _ac(np.asarray(H0)[..., s_], fd, rtol=2e-4, atol=2e-4), 'Hessian slot %d is not d^2/dx%d dx%d' % (s_, a, b)
 
 
 def chk_nurbs(c):
@@ -162,9 +168,9 @@ def chk_nurbs(c):
     Q = num.grid_eval(grid) / den.grid_eval(grid)[..., None]
     if f.is_scalar():
         Q = Q[..., 0]
-    assert np.allclose(V, Q, rtol=1e-12, atol=1e-12), 'NURBS is not numerator / weight'
+    assert _ac(V, Q, rtol=1e-12, atol=1e-12), 'NURBS is not numerator / weight'
     C, W = f.coeffs_weights()
-    assert np.allclose(C * W[..., None], f.coeffs[..., :-1]) and np.allclose(W, f.coeffs[..., -1])
+    assert _ac(C * W[..., None], f.coeffs[..., :-1]) and np.allclose(W, f.coeffs[..., -1])
 
 
 def chk_boundary(c):
@@ -187,17 +193,30 @@ def chk_boundary(c):
         bv = b.grid_eval(grid)
         if bv.shape != ref.shape and bv.shape == ref.shape + (1,):
             bv = bv[..., 0]     # the boundary of a scalar NURBS is returned as a 1-component vector function (values agree)
-        assert np.allclose(bv, ref, rtol=1e-12, atol=1e-12), 'boundary(%r) is not the restriction to that face' % (spec,)
+        assert _ac(bv, ref, rtol=1e-12, atol=1e-12), 'boundary(%r) is not the restriction to that face' % (spec,)
         # generic boundary function (used for reduced supports)
         from pyiga.geometry import _BoundaryFunction
         g = _BoundaryFunction(f, spec)
-        assert np.allclose(g.grid_eval(grid), ref, rtol=1e-12, atol=1e-12), '_BoundaryFunction.grid_eval'
+        gv = np.asarray(g.grid_eval(grid))
+        assert gv.shape == ref.shape, '_BoundaryFunction.grid_eval returns shape %r, the restriction of the parent has %r' % (gv.shape, ref.shape)
+        assert _ac(gv, ref, rtol=1e-12, atol=1e-12), '_BoundaryFunction.grid_eval'
+        # grids with one-point axes keep those axes (only the axis of the fixed coordinate is removed)
+        for one in range(sdim - 1):
+            grid1 = [np.array(gr[1:2]) if d == one else gr for d, gr in enumerate(grid)]
+            full1 = list(grid1)
+            full1.insert(ax, np.array([kvs[ax].kv[0] if side == 0 else kvs[ax].kv[-1]]))
+            ref1 = np.squeeze(f.grid_eval(full1), axis=ax)
+            gv1 = np.asarray(g.grid_eval(grid1))
+            assert gv1.shape == ref1.shape, '_BoundaryFunction.grid_eval on a grid with a one-point axis returns shape %r, expected %r' % (gv1.shape, ref1.shape)
+            assert _ac(gv1, ref1, rtol=1e-12, atol=1e-12), '_BoundaryFunction.grid_eval on a grid with a one-point axis'
+            bv1 = np.asarray(b.grid_eval(grid1))
+            assert bv1.shape == ref1.shape or bv1.shape == ref1.shape + (1,), 'boundary(%r).grid_eval on a grid with a one-point axis returns shape %r, expected %r' % (spec, bv1.shape, ref1.shape)
         x = [gr[1] for gr in grid]
-        assert np.allclose(g(*reversed(x)), ref[(1,) * (sdim - 1)], rtol=1e-12, atol=1e-12), '_BoundaryFunction.eval axis order'
+        assert _ac(g(*reversed(x)), ref[(1,) * (sdim - 1)], rtol=1e-12, atol=1e-12), '_BoundaryFunction.eval axis order'
         if len(c['tail']) <= 1:
             Jf = np.squeeze(f.grid_jacobian(full), axis=ax)
             keep = [k for k in range(sdim) if k != sdim - 1 - ax]
-            assert np.allclose(g.grid_jacobian(grid), Jf[..., keep], rtol=1e-11, atol=1e-11), '_BoundaryFunction.grid_jacobian drops the wrong column'
+            assert _ac(g.grid_jacobian(grid), Jf[..., keep], rtol=1e-11, atol=1e-11), '_BoundaryFunction.grid_jacobian drops the wrong column'
     # boundary of a function whose support is restricted in SOME directions only: the face inherits the (restricted) support of the remaining
     # directions, and is the restriction of the function to that face of its (restricted) domain
     if sdim >= 2 and hasattr(f, 'copy'):
@@ -209,7 +228,7 @@ def chk_boundary(c):
                 for side in (0, 1):
                     b = fr.boundary((ax, side))
                     want = tuple(s_ for d, s_ in enumerate(supp) if d != ax)
-                    assert np.allclose(np.asarray(b.support, dtype=float), np.asarray(want, dtype=float)), \
+                    assert _ac(np.asarray(b.support, dtype=float), np.asarray(want, dtype=float)), \
                         'boundary(%r) of a function with support %r has support %r, expected %r' % ((ax, side), supp, tuple(map(tuple, b.support)), want)
                     grid = [np.linspace(lo, hi, 3) for (lo, hi) in want]
                     full = list(grid)
@@ -218,7 +237,7 @@ def chk_boundary(c):
                     bv = np.asarray(b.grid_eval(grid))
                     if bv.shape != ref.shape and bv.shape == ref.shape + (1,):
                         bv = bv[..., 0]
-                    assert np.allclose(bv, ref, rtol=1e-12, atol=1e-12), 'boundary(%r) with partially restricted support is not the restriction to that face' % ((ax, side),)
+                    assert _ac(bv, ref, rtol=1e-12, atol=1e-12), 'boundary(%r) with partially restricted support is not the restriction to that face' % ((ax, side),)
     for bad in ('middle', (sdim, 0), (0, 2), (-1, 0)):
         try:
             bspline._parse_bdspec(bad, sdim)
@@ -283,19 +302,19 @@ def chk_ops(c):
     def unchanged(what):
         assert _same(snap, f.__dict__), 'operation %s altered its operand' % what
     off = np.array([1.5, -2.0])
-    assert np.allclose(f.translate(off).grid_eval(grid), V + off, atol=1e-12), 'translate'
+    assert _ac(f.translate(off).grid_eval(grid), V + off, atol=1e-12), 'translate'
     unchanged('translate')
-    assert np.allclose(f.scale(2.5).grid_eval(grid), 2.5 * V, atol=1e-12), 'scale (scalar)'
-    assert np.allclose(f.scale((2.0, -1.0)).grid_eval(grid), V * np.array([2.0, -1.0]), atol=1e-12), 'scale (per component)'
+    assert _ac(f.scale(2.5).grid_eval(grid), 2.5 * V, atol=1e-12), 'scale (scalar)'
+    assert _ac(f.scale((2.0, -1.0)).grid_eval(grid), V * np.array([2.0, -1.0]), atol=1e-12), 'scale (per component)'
     unchanged('scale')
     A = np.array([[1.0, 2.0], [0.0, -1.0]])
-    assert np.allclose(f.apply_matrix(A).grid_eval(grid), V @ A.T, atol=1e-11), 'apply_matrix'
+    assert _ac(f.apply_matrix(A).grid_eval(grid), V @ A.T, atol=1e-11), 'apply_matrix'
     unchanged('apply_matrix')
     th = 0.7
     R = np.array([[np.cos(th), -np.sin(th)], [np.sin(th), np.cos(th)]])
-    assert np.allclose(f.rotate_2d(th).grid_eval(grid), V @ R.T, atol=1e-11), 'rotate_2d'
+    assert _ac(f.rotate_2d(th).grid_eval(grid), V @ R.T, atol=1e-11), 'rotate_2d'
     unchanged('rotate_2d')
-    assert np.allclose(f[0].grid_eval(grid), V[..., 0], atol=1e-12) and np.allclose(f[1].grid_eval(grid), V[..., 1], atol=1e-12), 'component selection'
+    assert _ac(f[0].grid_eval(grid), V[..., 0], atol=1e-12) and np.allclose(f[1].grid_eval(grid), V[..., 1], atol=1e-12), 'component selection'
     unchanged('__getitem__')
     # component selection with every index kind numpy accepts on the last axis: f[I] evaluates to f(...)[..., I], for both kinds of function
     # (for NURBS the weight column is not a component), Jacobians follow, out-of-range indices raise
@@ -307,8 +326,8 @@ def chk_ops(c):
         want = V3[..., I]
         got = sel.grid_eval(grid)
         assert got.shape == want.shape, 'component selection %r: result has shape %r, expected %r' % (I, got.shape, want.shape)
-        assert np.allclose(got, want, atol=1e-12), 'component selection %r returns other components (max deviation %g)' % (I, np.max(np.abs(got - want)))
-        assert np.allclose(np.squeeze(sel.grid_jacobian(grid)), np.squeeze(J3[..., I, :]), atol=1e-10), 'Jacobian of component selection %r' % (I,)
+        assert _ac(got, want, atol=1e-12), 'component selection %r returns other components (max deviation %g)' % (I, np.max(np.abs(got - want)))
+        assert _ac(np.squeeze(sel.grid_jacobian(grid)), np.squeeze(J3[..., I, :]), atol=1e-10), 'Jacobian of component selection %r' % (I,)
     for I in (3, -4):
         try:
             f3[I]
@@ -317,10 +336,10 @@ def chk_ops(c):
         else:
             raise AssertionError('component selection with the out-of-range index %r does not raise' % (I,))
     n = f.as_nurbs()
-    assert np.allclose(n.grid_eval(grid), V, atol=1e-12), 'as_nurbs'
+    assert _ac(n.grid_eval(grid), V, atol=1e-12), 'as_nurbs'
     unchanged('as_nurbs')
     cp = f.copy()
-    assert np.allclose(cp.grid_eval(grid), V, atol=1e-13) and cp.coeffs is not f.coeffs
+    assert _ac(cp.grid_eval(grid), V, atol=1e-13) and cp.coeffs is not f.coeffs
     # support restriction followed by copy: the copy is the same map on the same (restricted) domain
     fr_ = f.copy()
     supp = tuple((lo + 0.25 * (hi - lo), hi - 0.125 * (hi - lo)) for (lo, hi) in f.support)
@@ -328,7 +347,7 @@ def chk_ops(c):
     assert tuple(map(tuple, fr_.support)) == supp, 'support restriction not reported'
     unchanged('support restriction of a copy')
     cp2 = fr_.copy()
-    assert np.allclose(np.asarray(cp2.support, dtype=float), np.asarray(supp, dtype=float)), \
+    assert _ac(np.asarray(cp2.support, dtype=float), np.asarray(supp, dtype=float)), \
         'copy() of a function with restricted support %r has support %r' % (supp, cp2.support)
     cp.coeffs[...] = 0
     unchanged('copy (and mutating the copy)')
@@ -343,7 +362,7 @@ def chk_ops(c):
     S = geometry.outer_sum(f, g)
     P = geometry.outer_product(f, g)
     assert S.sdim == sdim + 1 and np.allclose(S.grid_eval(grid + ggrid), V[..., None, :] + Vg.reshape((1,) * sdim + Vg.shape), atol=1e-11), 'outer_sum'
-    assert np.allclose(P.grid_eval(grid + ggrid), V[..., None, :] * Vg.reshape((1,) * sdim + Vg.shape), atol=1e-11), 'outer_product'
+    assert _ac(P.grid_eval(grid + ggrid), V[..., None, :] * Vg.reshape((1,) * sdim + Vg.shape), atol=1e-11), 'outer_product'
     T = geometry.tensor_product(f, g)
     Tv = T.grid_eval(grid + ggrid)
     assert Tv.shape[-1] == 4 and np.allclose(Tv[..., :2], np.broadcast_to(Vg.reshape((1,) * sdim + Vg.shape), Tv[..., :2].shape), atol=1e-11) \
@@ -354,7 +373,7 @@ def chk_ops(c):
         E = f.cylinderize(0.5, 2.0) if hasattr(f, 'cylinderize') else None
         if E is not None:
             Ev = E.grid_eval([np.array([0.0, 1.0])] + grid)
-            assert np.allclose(Ev[0, ..., :2], V, atol=1e-12) and np.allclose(Ev[0, ..., 2], 0.5) and np.allclose(Ev[1, ..., 2], 2.0), 'cylinderize'
+            assert _ac(Ev[0, ..., :2], V, atol=1e-12) and np.allclose(Ev[0, ..., 2], 0.5) and np.allclose(Ev[1, ..., 2], 2.0), 'cylinderize'
             unchanged('cylinderize')
     # support restriction goes through the documented setter only
     f2 = f.copy()
@@ -377,7 +396,7 @@ def chk_arcs(c):
     for nm, g in arcs:
         X = g.grid_eval(t)
         assert np.max(np.abs(np.hypot(X[:, 0], X[:, 1]) - r)) <= 1e-13 * max(1.0, r), '%s arc leaves the circle of radius %r' % (nm, r)
-        assert np.allclose(X[0], [r, 0.0], atol=1e-13 * max(1, r)) and np.allclose(X[-1], [r * np.cos(alpha), r * np.sin(alpha)], atol=1e-12 * max(1, r)), \
+        assert _ac(X[0], [r, 0.0], atol=1e-13 * max(1, r)) and np.allclose(X[-1], [r * np.cos(alpha), r * np.sin(alpha)], atol=1e-12 * max(1, r)), \
             '%s arc does not span the angle %r' % (nm, alpha)
         ang = np.unwrap(np.arctan2(X[:, 1], X[:, 0]))
         assert np.all(np.diff(ang) > 0) and abs(ang[-1] - ang[0] - alpha) <= 1e-12, '%s arc is not traversed counterclockwise once' % nm
@@ -396,7 +415,7 @@ def chk_arcs(c):
         C = geometry.circle(r).grid_eval(t)
         assert np.allclose(np.hypot(C[:, 0], C[:, 1]), r, atol=1e-13 * r) and np.allclose(C[0], C[-1], atol=1e-12 * r)
         S = geometry.semicircle(r).grid_eval(t)
-        assert np.allclose(S[-1], [-r, 0.0], atol=1e-12 * r)
+        assert _ac(S[-1], [-r, 0.0], atol=1e-12 * r)
 
 
 def chk_ctors(c):
@@ -407,33 +426,33 @@ def chk_ctors(c):
         X = U.grid_eval(grid)
         M = np.meshgrid(*grid, indexing='ij')
         for k in range(dim):        # component k (xyz) = parameter along knot-vector axis dim-1-k
-            assert np.allclose(X[..., k], M[dim - 1 - k], atol=1e-14), 'unit_cube component order'
+            assert _ac(X[..., k], M[dim - 1 - k], atol=1e-14), 'unit_cube component order'
         J = U.grid_jacobian(grid)
-        assert np.allclose(J, np.broadcast_to(np.eye(dim), J.shape), atol=1e-13)
+        assert _ac(J, np.broadcast_to(np.eye(dim), J.shape), atol=1e-13)
     kvs = (bspline.make_knots(2, 0.5, 2.0, 3), bspline.make_knots(1, -1.0, 1.0, 2))
     I = geometry.identity(kvs)
     grid = [np.linspace(0.5, 2.0, 4), np.linspace(-1.0, 1.0, 3)]
     X = I.grid_eval(grid)
-    assert np.allclose(X[..., 0], grid[1][None, :]) and np.allclose(X[..., 1], grid[0][:, None]), 'identity map'
+    assert np.allclose(X[..., 0], np.broadcast_to(grid[1][None, :], X.shape[:2])) and np.allclose(X[..., 1], grid[0][:, None]), 'identity map'
     L = geometry.line_segment([1.0, 2.0], [3.0, 6.0], support=(2.0, 4.0), intervals=c['n'])
-    assert np.allclose(L.grid_eval([np.array([2.0, 3.0, 4.0])]), [[1, 2], [2, 4], [3, 6]], atol=1e-13)
+    assert _ac(L.grid_eval([np.array([2.0, 3.0, 4.0])]), [[1, 2], [2, 4], [3, 6]], atol=1e-13)
     f = geometry.UserFunction(lambda x, y: np.stack((x + y, x * y), axis=-1), [(0.0, 1.0), (0.0, 2.0)])
     assert f.sdim == 2 and f.dim == 2
     g = [np.array([0.0, 0.5]), np.array([0.25, 1.0])]
     V = f.grid_eval(g)
-    assert np.allclose(V[1, 0], [0.25 + 0.5, 0.25 * 0.5]), 'UserFunction grid_eval axis order (x is the last axis)'
+    assert _ac(V[1, 0], [0.25 + 0.5, 0.25 * 0.5]), 'UserFunction grid_eval axis order (x is the last axis)'
     b = f.boundary('left')
-    assert np.allclose(b(0.7), f(0.0, 0.7))
+    assert _ac(b(0.7), f(0.0, 0.7))
     # the quadratic B-spline quarter annulus: straight radial edges from r1 to r2 on the two axes, mid-arc control polygon value
     for (r1, r2) in ((1.0, 2.0), (0.5, 3.0)):
         Q = geometry.bspline_quarter_annulus(r1, r2)
         for xi in (0.0, 0.3, 1.0):
             r = r1 + xi * (r2 - r1)
-            assert np.allclose(Q(xi, 0.0), [r, 0.0], atol=1e-14) and np.allclose(Q(xi, 1.0), [0.0, r], atol=1e-14), 'bspline_quarter_annulus: radial edges'
-            assert np.allclose(Q(xi, 0.5), [0.75 * r, 0.75 * r], atol=1e-14), 'bspline_quarter_annulus: mid-arc point of the quadratic Bezier arc'
+            assert _ac(Q(xi, 0.0), [r, 0.0], atol=1e-14) and np.allclose(Q(xi, 1.0), [0.0, r], atol=1e-14), 'bspline_quarter_annulus: radial edges'
+            assert _ac(Q(xi, 0.5), [0.75 * r, 0.75 * r], atol=1e-14), 'bspline_quarter_annulus: mid-arc point of the quadratic Bezier arc'
     P0 = geometry.perturbed_square(num_intervals=3, noise=0.0)
     gp = [np.linspace(0, 1, 4), np.linspace(0, 1, 5)]
-    assert np.allclose(P0.grid_eval(gp), geometry.unit_square().grid_eval(gp), atol=1e-14), 'perturbed_square(noise=0) is the unit square'
+    assert _ac(P0.grid_eval(gp), geometry.unit_square().grid_eval(gp), atol=1e-14), 'perturbed_square(noise=0) is the unit square'
     # composition
     inner = geometry.unit_square().scale((0.5, 0.5))
     outer = bspline.BSplineFunc(geometry.unit_square().kvs, np.arange(8.0).reshape(2, 2, 2))
@@ -441,10 +460,10 @@ def chk_ctors(c):
     g2 = [np.array([0.0, 0.4, 1.0]), np.array([0.2, 0.9])]
     XY = inner.grid_eval(g2)
     ref = np.array([[outer(XY[i, j, 0], XY[i, j, 1]) for j in range(2)] for i in range(3)])
-    assert np.allclose(comp.grid_eval(g2), ref, atol=1e-13), 'ComposedFunction.grid_eval'
+    assert _ac(comp.grid_eval(g2), ref, atol=1e-13), 'ComposedFunction.grid_eval'
     Jc = comp.grid_jacobian(g2)
     Jo = np.array([[outer.grid_jacobian([np.array([XY[i, j, 1]]), np.array([XY[i, j, 0]])])[0, 0] for j in range(2)] for i in range(3)])
-    assert np.allclose(Jc, Jo * 0.5, atol=1e-12), 'ComposedFunction.grid_jacobian (chain rule)'
+    assert _ac(Jc, Jo * 0.5, atol=1e-12), 'ComposedFunction.grid_jacobian (chain rule)'
 
 
 def chk_boundary1d(c):
